@@ -5,6 +5,7 @@ import Driver.C08
 import Driver.C17
 import Driver.C11
 import Driver.Signer
+import Driver.C18
 open Lean Driver
 
 def dispatch (p : String) (inp impl : Json) : CaseResult :=
@@ -15,6 +16,7 @@ def dispatch (p : String) (inp impl : Json) : CaseResult :=
   | "C17" => C17.handle inp impl
   | "C11" => C11.handle inp impl
   | "C02" => Signer.handleC02 inp impl
+  | "C18" => C18.handle inp impl
   | "C03" => Signer.handleC03 inp impl
   | _ => { model := Json.null, spec := false, why := "unknown property " ++ p }
 
